@@ -467,4 +467,6 @@ SUBCHECKS = [
     SubCheck("tx_bytes", check_tx_bytes, "serialized transactions under truncation, extension, bit flips, non-minimal/edited counts, marker/flag edits, splices, with check_validity on/off, bytes or stream: accepted => identical re-serialization and Core's parser accepts; non-trivial: accepted and longer than 10 bytes", tx_bytes_case, quick=6000, thorough=100000),
     SubCheck("blocks", check_block, "regtest-mined headers and blocks of 1..5 transactions: serialize = model, parse back, sizes/weight, BIP34 height, JSON; mutated bytes re-serialize identically or are refused", block_case, quick=500, thorough=5000),
     SubCheck("misc", check_misc, "BIP32KeyOrigin bytes/dict/description; bms.Sig 65 bytes and canonical base64", misc_case, quick=1500, thorough=15000),
+    SubCheck("coverage_guided", None, "atheris / libFuzzer campaigns (btclib instrumented, in-process) from arbitrary bytes over the wire parsers - transaction (check_validity on and off), block and header, psbt, p2p message envelope, script / witness, extended key and the three signature encodings - seeded with a few valid encodings, libFuzzer seed derived from VERIF_SEED; oracle inside the target: whatever bytes a parser accepts are written back exactly as consumed and parse again to the same bytes, a transaction's id, hash, size and weight are those the wire model computes from the bytes, a parsed PSBT re-serializes to a fixed point; non-trivial: inputs libFuzzer kept because they reached new coverage",
+             units=lambda tier: __import__("checks.c19_fuzz", fromlist=["units"]).units(tier, "C05"), run_unit=lambda unit, col: __import__("checks.c19_fuzz", fromlist=["run_unit"]).run_unit(unit, col, "C05")),
 ]
